@@ -54,10 +54,18 @@ def gen_case(rng, idx, tier):
     if not nodes:
         return None
     scal = not isinstance(A["P"][0], list)
-    B = gen.curve(rng, pmax=2, nintmax=1, dim=0 if (scal or prog == "div") else len(A["P"][0]), rational=False, itv=(a, b), big=False)
+    B = gen.curve(rng, pmax=2, nintmax=1, dim=0 if (scal or prog in ("div", "mul")) else len(A["P"][0]), rational=False, itv=(a, b), big=False)
     if prog == "div":
         B["P"] = [F(rng.randint(1, 9), rng.choice([1, 2, 3])) for _ in B["P"]]
-    return {"A": cv.enc_curve(A, "frac"), "B": cv.enc_curve(B, "frac"), "nodes": lib.enc(nodes), "prog": prog, "cls": cls, "t": rng.choice([1, 1, 2])}
+    # parameters are fixed exactly here and only converted at run time, so that a parameter equal to a knot stays
+    # equal to it in every representation (a curve may be discontinuous there)
+    params = [a, b] + nodes + [a + (b - a) * F(1, 3)]
+    ks = ref.distinct(U)
+    fitnodes = []
+    for x0, x1 in zip(ks, ks[1:]):
+        fitnodes += ref.sample_points(x0, x1, p + 1)
+    return {"A": cv.enc_curve(A, "frac"), "B": cv.enc_curve(B, "frac"), "nodes": lib.enc(nodes), "prog": prog, "cls": cls, "t": rng.choice([1, 1, 2]),
+            "params": lib.enc(params), "fitnodes": lib.enc(fitnodes)}
 
 
 class Pt:
@@ -118,8 +126,7 @@ def run_program(prog, case, nt, minimal=False):
             A = Curve(lib.nums(U, nt), [Pt(lib.num(c, nt) for c in pt) for pt in P])
         else:
             A = lib.mk_curve(U, P, W, nt)
-        a, b = A.knotvector.limits
-        params = [a, b] + nodes + [a + (b - a) * lib.num(F(1, 3), nt)]
+        params = [lib.num(x, nt) for x in lib.dec(case["params"])]
         if prog == "eval":
             return [A(u) for u in params] + [A.eval(params)]
         if prog == "basis":
@@ -162,9 +169,8 @@ def run_program(prog, case, nt, minimal=False):
             err = S.fit_curve(A)
             return [S, err]
         if prog == "fit_points":
-            n = A.npts
-            zs = [a + (b - a) * lib.num(F(i, n + 1), nt) for i in range(n + 2)]
-            pts = [lib.num(F(i * i - 3, 2), nt) for i in range(n + 2)]
+            zs = [lib.num(x, nt) for x in lib.dec(case["fitnodes"])]
+            pts = [lib.num(F(i * i - 3, 2), nt) for i in range(len(zs))]
             S = Curve(lib.nums(U, nt))
             S.fit_points(pts, zs)
             return S
